@@ -197,11 +197,18 @@ async fn server_task(is_ws: bool, listener: tokio::net::TcpListener, mut cmds: t
             Cmd::Echo(k) => {
                 let mut r = Ok(());
                 let mut ids = Vec::new();
-                for _ in 0..k {
+                let mut answered = 0usize;
+                while answered < k {
                     r = match conn.read_frame().await {
+                        Ok(f) if f.h.notify != 0 => {
+                            // a notify sent by the client: never answered, but its id counts
+                            ids.push(f.h.id);
+                            Ok(())
+                        }
                         Ok(f) => {
                             let c = caller_of(&f).map(|c| c as i64).unwrap_or(-1);
                             ids.push(f.h.id);
+                            answered += 1;
                             conn.send_frame(response(f.h.id, false, c, c)).await
                         }
                         Err(e) => Err(e),
@@ -453,6 +460,20 @@ fn response(id: u64, notify: bool, tag: i64, c: i64) -> Vec<u8> {
     let body = serde_json::to_vec(&json!({ "tag": tag, "c": c })).unwrap();
     RawFrame::request(id, notify, 1, b"/t", 2, &body).to_vec()
 }
+/// Query bytes for a frame nobody is waiting for (variant `v % 4`): plain, 2-byte and 4-byte UTF-8
+/// scalars straddling byte 64, and bytes that are not UTF-8 at all.
+fn odd_query(v: usize) -> Vec<u8> {
+    match v % 4 {
+        0 => b"/t".to_vec(),
+        1 => format!("/{}", "\u{e9}".repeat(40)).into_bytes(),
+        2 => format!("/{}", "\u{1F600}".repeat(20)).into_bytes(),
+        _ => vec![0xffu8; 80],
+    }
+}
+fn response_q(id: u64, notify: bool, tag: i64, c: i64, qv: usize) -> Vec<u8> {
+    let body = serde_json::to_vec(&json!({ "tag": tag, "c": c })).unwrap();
+    RawFrame::request(id, notify, 1, &odd_query(qv), 2, &body).to_vec()
+}
 /// An error response (ec != 0, UTF-8 message body).
 fn error_response(id: u64, ec: u32) -> Vec<u8> {
     let mut f = RawFrame::request(id, false, 1, b"/t", 3, b"late failure of some other request");
@@ -547,6 +568,9 @@ fn run_mux_case(h: &H, out: &mut Out, idx: &str, case: &MuxCase) {
         if &t[..1] == "e" {
             // unknown id *and* a non-zero error code (a late error answer to a call that gave up)
             wire.push(error_response(id, 7));
+        } else if who.is_none() {
+            // nobody waits for it: also vary the echoed query (long, non-ASCII, not UTF-8)
+            wire.push(response_q(id, notify, pos as i64, -1, k));
         } else {
             wire.push(response(id, notify, pos as i64, who.map(|x| x as i64).unwrap_or(-1)));
         }
@@ -786,6 +810,10 @@ fn run_seq_case(h: &H, out: &mut Out, idx: &str, kind: usize, t: usize, k: usize
             Cl::B(cl) => {
                 std::thread::spawn(move || {
                     for j in 0..k {
+                        // a notify now and then: it must consume an id of its own
+                        if j % 3 == 1 {
+                            let _ = cl.notify_json("/n", &json!({"n": j}));
+                        }
                         if let Some(e) = check(j, cl.call_json("/t", &body(j))) {
                             let _ = dtx.send((w, j, e));
                             return;
@@ -797,6 +825,9 @@ fn run_seq_case(h: &H, out: &mut Out, idx: &str, kind: usize, t: usize, k: usize
             Cl::A(cl) => {
                 h.rt.spawn(async move {
                     for j in 0..k {
+                        if j % 3 == 1 {
+                            let _ = cl.notify_json("/n", &json!({"n": j})).await;
+                        }
                         if let Some(e) = check(j, cl.call_json("/t", &body(j)).await) {
                             let _ = dtx.send((w, j, e));
                             return;
@@ -808,6 +839,9 @@ fn run_seq_case(h: &H, out: &mut Out, idx: &str, kind: usize, t: usize, k: usize
             Cl::W(cl) => {
                 h.rt.spawn(async move {
                     for j in 0..k {
+                        if j % 3 == 1 {
+                            let _ = cl.notify_json("/n", &json!({"n": j})).await;
+                        }
                         if let Some(e) = check(j, cl.call_json("/t", &body(j)).await) {
                             let _ = dtx.send((w, j, e));
                             return;
@@ -1101,7 +1135,7 @@ fn run_fwd_residue_case(h: &H, out: &mut Out, idx: &str) {
     }
     let _ = s.abort(h, 1);
     // 3. late responses for both abandoned copies: inert
-    s.send(Cmd::Send(vec![response(7, false, 0, 0), response(7, false, 1, 1)]));
+    s.send(Cmd::Send(vec![response_q(7, false, 0, 0, 1), response_q(7, false, 1, 1, 3)]));
     // 4. an ordinary call is served
     s.call(h, 2, req_body(2), None);
     let mut got = None;
@@ -1209,7 +1243,7 @@ fn gen_mux(args: &Args, r: &mut Rng) -> (Vec<MuxCase>, Vec<BatchCase>) {
         }
         // every single insertion position of each adversarial kind for N = 2 (all orders)
         for p in permutations(2) {
-            for t in ["u0", "e0", "x0", "n0", "n1", "r0", "r1"] {
+            for t in ["u0", "u1", "u2", "u3", "e0", "x0", "x1", "n0", "n1", "r0", "r1"] {
                 for pos in 0..=2 {
                     let mut script: Vec<String> = p.iter().map(|c| format!("r{c}")).collect();
                     script.insert(pos, t.to_string());
@@ -1274,7 +1308,11 @@ struct DeadCase {
 }
 
 fn malformed(fault: &str, id: u64) -> Vec<u8> {
+    let mut parts = fault.split('.');
+    let fault = parts.next().unwrap_or("");
+    let nflag: u8 = parts.clone().find_map(|p| p.strip_prefix('n').and_then(|x| x.parse().ok())).unwrap_or(0);
     let mut f = RawFrame::request(id, false, 1, b"/t", 2, b"{\"tag\":0,\"c\":0}");
+    f.h.notify = nflag;
     match fault {
         "badspec" => f.h.spec = 0x1234,
         "badlen" => f.h.length += 7,
@@ -1304,8 +1342,9 @@ fn run_dead_case(h: &H, out: &mut Out, idx: &str, case: &DeadCase) {
             return;
         }
     };
+    let want_sub = !case.fault.ends_with(".s0");
     let mut sub = match &s.cl {
-        Cl::W(w) => w.subscribe_notifies().ok(),
+        Cl::W(w) if want_sub => w.subscribe_notifies().ok(),
         _ => None,
     };
     let tmo = if case.tmo { Some(CALL_TIMEOUT) } else { None };
@@ -1355,7 +1394,7 @@ fn run_dead_case(h: &H, out: &mut Out, idx: &str, case: &DeadCase) {
     }
     // the fault
     let victim = ids.get(case.answered).copied().unwrap_or(77);
-    match case.fault.as_str() {
+    match case.fault.split('.').next().unwrap_or("") {
         "close" => s.send(Cmd::Close),
         "reset" => s.send(Cmd::Reset),
         "wsclose" => s.send(Cmd::SendWsClose),
@@ -1373,8 +1412,8 @@ fn run_dead_case(h: &H, out: &mut Out, idx: &str, case: &DeadCase) {
             let _ = s.srv_done();
             s.send(Cmd::Close);
         }
-        f => {
-            let bytes = malformed(f, victim);
+        _ => {
+            let bytes = malformed(&case.fault, victim);
             if case.kind == 2 {
                 s.send(Cmd::Send(vec![bytes]));
             } else {
@@ -1536,7 +1575,7 @@ fn run_tmo_case(h: &H, out: &mut Out, idx: &str, kind: usize, mode: &str, jitter
         "late" => {
             // the response is held back until the caller has reported the timeout
             first_res = s.res(WATCHDOG);
-            s.send(Cmd::Send(vec![response(id0, false, 0, 0)]));
+            s.send(Cmd::Send(vec![response_q(id0, false, 0, 0, 1 + jitter_ms as usize)]));
             let _ = s.srv_done();
         }
         "early" => {
@@ -1641,8 +1680,8 @@ fn run_cancel_case(h: &H, out: &mut Out, idx: &str, kind: usize, mode: &str) {
         };
         cancelled = s.abort(h, 0);
         residue = residue_probe(h, &mut s, id0);
-        // the late response of the cancelled call
-        s.send(Cmd::Send(vec![response(id0, false, 0, 0)]));
+        // the late response of the cancelled call (echoing a long non-ASCII query)
+        s.send(Cmd::Send(vec![response_q(id0, false, 0, 0, 2)]));
         let _ = s.srv_done();
     } else {
         // a big call stalls in `write` (the server is not reading) and holds the writer lock;
@@ -1741,6 +1780,46 @@ fn run_stall_case(h: &H, out: &mut Out, idx: &str, kind: usize, fault: &str) {
     if a == "HANG" {
         out.oracle_fail(&format!("deadconn.{}.stalled_writer_blocks_failure", kname), &format!("the peer sent a malformed frame ({}) while another caller was stalled in write (peer not reading): the in-flight call was not failed within {:?}", fault, wd), &ops);
     }
+    // the blocking client shuts the socket down outside the writer mutex: that must also release the
+    // call that is stalled inside `write`, while the peer still keeps the socket open
+    if kind == 0 && a != "HANG" && b == "HANG" {
+        let t = Instant::now();
+        while t.elapsed() < wd && b == "HANG" {
+            match s.res(wd.saturating_sub(t.elapsed())) {
+                Some((7, r)) => b = match r { Ok(_) => "own".into(), Err(e) => cls(&e) },
+                Some(_) => {}
+                None => break,
+            }
+        }
+        if b == "HANG" {
+            out.oracle_fail("deadconn.blocking.stalled_call_not_released", &format!("the connection failed (malformed frame {}) but the call stalled inside write did not return within {:?} while the peer kept the socket open", fault, wd), &ops);
+            saw_hang();
+        }
+    }
+    // a later call on the failed connection returns an error (all clients: it is refused or its write
+    // fails; it must not queue behind the stalled writer for ever)
+    let mut later = "-".to_string();
+    if a != "HANG" && (kind != 0 || b != "HANG") {
+        s.call(h, 1, req_body(1), None);
+        let t = Instant::now();
+        later = "HANG".into();
+        while t.elapsed() < wd && later == "HANG" {
+            match s.res(wd.saturating_sub(t.elapsed())) {
+                Some((1, r)) => later = match r { Ok(_) => "own".into(), Err(e) => cls(&e) },
+                Some((7, r)) => b = match r { Ok(_) => "own".into(), Err(e) => cls(&e) },
+                Some(_) => {}
+                None => break,
+            }
+        }
+        if later == "HANG" && kind != 0 {
+            // async / ws: a later call is refused at registration, before it could queue on the writer mutex
+            out.oracle_fail(&format!("deadconn.{}.later_hang", kname), &format!("a call made after the failure (writer still stalled) did not return within {:?}", wd), &ops);
+            saw_hang();
+        } else if later == "HANG" {
+            out.oracle_fail("deadconn.blocking.later_hang", &format!("a call made after the failure did not return within {:?} (blocked behind the stalled writer)", wd), &ops);
+            saw_hang();
+        }
+    }
     // release: the peer goes away; now everything must return
     s.send(Cmd::Reset);
     let _ = s.srv();
@@ -1757,7 +1836,7 @@ fn run_stall_case(h: &H, out: &mut Out, idx: &str, kind: usize, fault: &str) {
         out.oracle_fail(&format!("deadconn.{}.inflight_hang", kname), &format!("calls still blocked after the peer reset the connection: small={} big={}", a, b), &ops);
     }
     out.count(&format!("deadconn.{}.stall.{}", kname, a));
-    out.case(&op, &format!("{} small {} big {}", idx, if a.starts_with("late-") { "Err" } else { a.as_str() }, b), true);
+    out.case(&op, &format!("{} small {} big {} later {}", idx, if a.starts_with("late-") { "Err" } else { a.as_str() }, b, later), true);
 }
 
 
@@ -1891,6 +1970,16 @@ fn gen_dead(args: &Args, r: &mut Rng) -> Vec<DeadCase> {
                 let answered = if when == "after" && n > 0 && r.chance(1, 2) { r.below(n as u64) as usize } else { 0 };
                 let cut = if *fault == "cut" { cuts[(rep + r.below(7) as usize) % cuts.len()] + if kind == 2 { 2 } else { 0 } } else { 0 };
                 v.push(DeadCase { kind, n, tmo: r.chance(1, 2), answered, fault: fault.to_string(), when: when.to_string(), cut });
+            }
+        }
+        if kind == 2 {
+            // malformed binary messages whose header byte 11 (notify) is set, with and without a subscriber
+            for fault in ["badspec", "badlen", "shortlen", "trailing", "shortmsg"] {
+                for (nflag, sub) in [(1u8, false), (2, false), (255, false), (1, true), (255, true)] {
+                    let n = 1 + r.below(3) as usize;
+                    let f = format!("{}.n{}{}", fault, nflag, if sub { "" } else { ".s0" });
+                    v.push(DeadCase { kind, n, tmo: false, answered: 0, fault: f, when: "after".into(), cut: 0 });
+                }
             }
         }
         if args.thorough() {
